@@ -31,6 +31,7 @@ func checkC17(p *Prog, r *Report) {
 	r.rule("C17.H2", "every execute() is dominated by now.After(<that task>.ts), now being read (time.Now() or the timer channel) after the task was received / in the same round; Less orders by ts.Before", 3)
 	r.rule("C17.H3", "after heap.Push the timer is Reset(tasks[0].ts.Sub(now)) before the next select; the timer arm ends only with an empty heap or after such a Reset", 2)
 	r.rule("C17.H4", "the blocking <-timer.C is guarded by !stopped && !drained, stopped := timer.Stop() just before; drained = true opens the timer arm; drained = false follows every Reset", 3)
+	r.rule("C17.H6", "the deadline a task is scheduled for is the deadline it was submitted with: the ts of a timedFunc is set once, in Put, from Put's deadline parameter as it is (never reassigned, clamped or rounded), and stored nowhere else", 1)
 	r.rule("C17.H5", "Put appends under prependLock and then always signals (non-blocking send, channel capacity >= 1); the only receive from the signal channel is followed by taking the whole slice under the lock; prepend forwards every element, leaving only on die", 5)
 
 	sched := p.FuncByName("(*TimedSched).sched")
@@ -701,6 +702,28 @@ func checkSchedHandOff(p *Prog, r *Report, put, prepend *FuncInfo) {
 			}
 		}
 		r.check(ok, "C17.H5", "NewTimedSched", "-", "capacity of chPrependNotify", ">= 1", "the signal channel is unbuffered: a non-blocking send while the forwarder is busy is dropped, and the tasks appended meanwhile are never forwarded")
+	}
+
+	// ---- H6
+	{
+		fTs := p.Field("timedFunc", "ts")
+		n := 0
+		for _, st := range p.FieldStores(fTs) {
+			n++
+			construct := "store(timedFunc.ts) in " + st.Fn.Name
+			root := rootFuncInfo(st.Fn)
+			if root != put || st.Rhs == nil {
+				r.bad("C17.H6", st.Fn.Name, p.Pos(st.Node), construct, "a task's deadline is (re)written outside Put: it can run before the deadline it was submitted with, or be postponed", "")
+				continue
+			}
+			t := p.Term(st.Rhs)
+			v, _ := t.Obj.(*types.Var)
+			okV := t.Op == "var" && v != nil && p.isParam(v) && len(p.Assignments(put, v)) == 0
+			r.check(okV, "C17.H6", st.Fn.Name, p.Pos(st.Node), construct, "ts is Put's deadline parameter, unmodified", "the deadline stored is "+exprString(st.Rhs)+", which is not Put's deadline parameter as submitted (it is reassigned or computed): a task can run before the deadline its submitter asked for")
+		}
+		if n == 0 {
+			r.bad("C17.H6", put.Name, p.Pos(put.Node), "store(timedFunc.ts)", "no task deadline is ever stored", "")
+		}
 	}
 
 	// ---- prepend
